@@ -4,3 +4,4 @@ INVARIANT Functional
 POSTCONDITION TraceAccepted
 CONSTANTS
  AsBuiltRoot = FALSE
+ AsBuiltDep = FALSE
